@@ -374,3 +374,23 @@ Theorem accepted_path_roundtrip pf okf : (forall b, okf b = true -> path_float_r
 Proof.
   intros Hfl bs ps Hp Hl. apply (path_roundtrip_floats pf okf Hfl). apply leaf_shape_safe; [exact (parse_image bs ps Hp)|exact Hl].
 Qed.
+
+(* the same with float literals, as far as the printing of floats is modelled: the three non-finite doubles, printed inf,
+   -inf, NaN as the crate prints them (Render.float_placeholder).  Since the fix e1187a7 of the crate (`-inf` is read) negative
+   infinity is among them: before it, an accepted literal overflowing downwards (`-1e999`) printed as a text that was rejected. *)
+Theorem accepted_path_roundtrip_nonfinite bs ps : parse_json_path bs = Ok ps -> leaf_path nonfinite_floats ps = true ->
+  parse_json_path (show_json_path Render.float_placeholder ps) = Ok ps.
+Proof. apply (accepted_path_roundtrip Render.float_placeholder nonfinite_floats). exact path_float_reads_back_nonfinite. Qed.
+
+(* $.a > -1e999 is accepted as a comparison with negative infinity, printed as $.a > -inf, and that is read back *)
+Example neg_inf_literal_roundtrip :
+  let text := [36; 46; 97; 32; 62; 32; 45; 49; 101; 57; 57; 57] in
+  let ps := [PPredicate (EBin OGt (EPaths [PRoot; PDotField [97]]) (EValue (PVNum (NFloat F_NEG_INF))))] in
+  parse_json_path text = Ok ps /\ leaf_path nonfinite_floats ps = true /\
+  show_json_path Render.float_placeholder ps = [36; 46; 97; 32; 62; 32; 45; 105; 110; 102] /\
+  parse_json_path (show_json_path Render.float_placeholder ps) = Ok ps.
+Proof.
+  intros text ps. assert (P : parse_json_path text = Ok ps) by (vm_compute; reflexivity).
+  assert (L : leaf_path nonfinite_floats ps = true) by (vm_compute; reflexivity).
+  split; [exact P|]. split; [exact L|]. split; [vm_compute; reflexivity|]. exact (accepted_path_roundtrip_nonfinite text ps P L).
+Qed.
